@@ -113,15 +113,69 @@ def resultJson (r : Except Raise (Elem × Bool)) : Json :=
   | .error .typeError => obj [("raise", Json.str "TypeError")]
   | .ok (e, f) => obj [("flag", Json.bool f), ("elem", elemJson e), ("value", nativeJson (value e))]
 
-/-- case: schema, x (native), env.  `first`: a fresh element set with x; `again`: another fresh
-    element set with the first one's exported value; `hyp_holds` / `hyp_true`: the hypothesis of
-    `Proofs.C03.reimport` / `reimport_true` evaluated on the first element with the tables of the
-    real classes.  `spec_agrees` is False should the computed results contradict the theorems. -/
+partial def parseElem (j : Json) : Except String Elem := do
+  if let .ok d := fld j "dict" then
+    return .dict (← (← arr d).mapM (fun p => do
+      match (← arr p) with
+      | [k, e] => return ((← chars k), (← parseElem e))
+      | _ => throw "bad dict member"))
+  if let .ok l := fld j "seq" then return .seq (← (← arr l).mapM parseElem)
+  return .leaf (← parseNative (← fld j "v")) (← cfld j "u") (← (← afld j "parts").mapM chars)
+
+def parseKey (j : Json) : Except String Key :=
+  match j.getNat? with
+  | .ok n => pure (.idx n)
+  | .error _ => do return .name (← chars j)
+
+def stepRaiseJson : StepRaise → Json
+  | .keyError => obj [("raise", Json.str "KeyError")]
+  | .typeError => obj [("raise", Json.str "TypeError")]
+  | .indexError => obj [("raise", Json.str "IndexError")]
+
+/-- the history before the `set()` the property talks about.  Steps: {"op":"set","path","x"} (the
+    member's own `set()`, the element's with the empty path), {"op":"setitem","path","key","fresh","x"}
+    (item assignment; `fresh`: an Array builds a new member), {"op":"state","cur"} (the state the real
+    element was in after a step the model does not run: `set_flat()`).  A step may carry "resync": the
+    state of the real element after it, adopted when the step raised (what a `set()` that raised half-way
+    leaves is not modelled).  Returns the state after the history and one observation per step. -/
+def runPre (env : Env) (s : Schema) : Elem → List Json → Except String (Elem × List Json)
+  | cur, [] => pure (cur, [])
+  | cur, j :: rest => do
+    let op ← sfld j "op"
+    let (next, out) ← (do
+      if op == "state" then
+        let e ← parseElem (← fld j "cur")
+        return (e, obj [("adopted", Json.bool true), ("shaped", Json.bool (shapedB env s e))])
+      let path ← (← afld j "path").mapM parseKey
+      let x ← parseNative (← fld j "x")
+      let (st, isSet) ← (do
+        if op == "set" then return (Step.set path x, true)
+        if op == "setitem" then
+          return (Step.setItem path (← parseKey (← fld j "key")) (← bfld j "fresh") x, false)
+        throw s!"bad step {op}" : Except String (Step × Bool))
+      match applyStep env s cur st with
+      | .ok (e, f) =>
+        return (e, obj [("flag", if isSet then Json.bool f else Json.null), ("elem", elemJson e)])
+      | .error r =>
+        let rs := fldD j "resync" Json.null
+        let e ← if isNull rs then pure cur else parseElem rs
+        return (e, stepRaiseJson r) : Except String (Elem × Json))
+    let (fin, outs) ← runPre env s next rest
+    return (fin, out :: outs)
+
+/-- case: schema, x (native), env, pre (the element's history, see `runPre`).  `first`: the element
+    after its history, set with x; `again`: a fresh element set with the first one's exported value;
+    `cur_shaped`: the state after the history conforms to the schema (`shapedB`, the premise `Shaped` of
+    `Proofs.C03.reimport`); `hyp_holds` / `hyp_true`: the hypothesis of `reimport` / `reimport_true`
+    evaluated on the first element with the tables of the real classes.  `spec_agrees` is False should
+    the computed results contradict the theorems. -/
 def run (j : Json) : Except String Json := do
   let s ← parseSchema (← fld j "schema")
   let env ← parseEnv (← fld j "env")
   let x ← parseNative (← fld j "x")
-  let r := setNative env s (blank env s) x
+  let (cur, pre) ← runPre env s (blank env s) (← arr (fldD j "pre" (Json.arr #[])))
+  let shaped := shapedB env s cur
+  let r := setNative env s cur x
   match r with
   | .ok (e, f) =>
     let r2 := setNative env s (blank env s) (value e)
@@ -133,9 +187,11 @@ def run (j : Json) : Except String Json := do
     let flag2 := match r2 with
       | .ok (_, f2) => f2
       | _ => false
-    let contradiction := f && ((hyp && !same) || (hypT && !(same && flag2)))
-    return obj [("first", resultJson r), ("again", resultJson r2),
+    let contradiction := f && shaped && ((hyp && !same) || (hypT && !(same && flag2)))
+    return obj [("pre", Json.arr pre.toArray), ("cur_shaped", Json.bool shaped),
+      ("first", resultJson r), ("again", resultJson r2),
       ("hyp_holds", Json.bool hyp), ("hyp_true", Json.bool hypT), ("spec_agrees", Json.bool (!contradiction))]
-  | _ => return obj [("first", resultJson r), ("again", Json.null), ("hyp_holds", Json.null), ("hyp_true", Json.null)]
+  | _ => return obj [("pre", Json.arr pre.toArray), ("cur_shaped", Json.bool shaped),
+      ("first", resultJson r), ("again", Json.null), ("hyp_holds", Json.null), ("hyp_true", Json.null)]
 
 end Flatland.Run.C03
